@@ -209,15 +209,29 @@ def replay_positions(name, events):
 
 
 # ------------------------------------------------------------------ exploration 1b: batches of several messages per call
-BT = {"A": Traj("batch_A_450kt", 52.3, 4.8, 45, 450), "B": Traj("batch_B_450kt", 50.1, 19.0, 290, 450)}
+# worlds: two aircraft and (optionally) the configured receiver location.  "eu": both airborne, 600 NM apart, no receiver.
+# The others put one aircraft on the ground on another continent (surface frames only resolve near a reference: without a
+# configured receiver the table has nothing of its OWN to resolve them with - whatever it stores must still be right).
+BWORLDS = {
+    "eu": ({"A": Traj("batch_A_450kt", 52.3, 4.8, 45, 450), "B": Traj("batch_B_450kt", 50.1, 19.0, 290, 450)}, None),
+    "ams_air+jfk_taxi": ({"A": Traj("batch_A_450kt", 52.3, 4.8, 45, 450), "B": Traj("batch_B_taxi", 40.64, -73.78, 130, 15, surface_until=10 ** 9, taxi_kt=15)}, None),
+    "ams_air+jfk_taxi@jfk": ({"A": Traj("batch_A_450kt", 52.3, 4.8, 45, 450), "B": Traj("batch_B_taxi", 40.64, -73.78, 130, 15, surface_until=10 ** 9, taxi_kt=15)}, (40.6, -73.8)),
+    "syd_taxi+ams_air": ({"A": Traj("batch_A_taxi", -33.94, 151.17, 340, 12, surface_until=10 ** 9, taxi_kt=12), "B": Traj("batch_B_450kt", 52.3, 4.8, 45, 450)}, None),
+    "ams_taxi+lhr_taxi@ams": ({"A": Traj("batch_A_taxi", 52.31, 4.76, 10, 15, surface_until=10 ** 9, taxi_kt=15), "B": Traj("batch_B_taxi", 51.47, -0.46, 270, 15, surface_until=10 ** 9, taxi_kt=15)}, (52.3, 4.7)),
+}
+BW = ["eu"]
+BT = BWORLDS["eu"][0]
 BICAO = {"A": 0x4840D6, "B": 0x3C6444}
 BKINDS = [("A", 0), ("A", 1), ("B", 0), ("B", 1)]
 BATCHES = [(k,) for k in BKINDS] + [(a, b) for a in BKINDS for b in BKINDS if a != b]
 
 
 def batch_msg(who, oe, t):
-    tr = BT[who]
+    tr = BWORLDS[BW[0]][0][who]
     lat, lon = tr.pos(t)
+    if tr.on_ground(t):
+        e = C.encode(Fr(lat), Fr(lon), oe, True)
+        return F.es(C.me_surface(7, 12, 1, 40, oe, e["yz"], e["xz"]), BICAO[who], 5, 17)
     e = C.encode(Fr(lat), Fr(lon), oe)
     return F.es(C.me_airborne(11, 0xC38, oe, e["yz"], e["xz"]), BICAO[who], 5, 17)
 
@@ -250,7 +264,7 @@ def batch_inv(d, exc, info):
         if ac is None:
             return "table:aircraft_missing_right_after_its_message"
         if ac.get("tpos") == t and ac.get("lat") is not None:
-            lat, lon = BT[who].pos(t)
+            lat, lon = BWORLDS[BW[0]][0][who].pos(t)
             if abs(ac["lat"] - lat) > 0.001 or C.lon_diff(ac["lon"], lon) > 0.001:
                 return "table:stored_position_off_by_more_than_0.001deg:batch_of_several_messages"
     return None
@@ -275,12 +289,13 @@ def run_batches(first, depth, acc):
             states.add(hash((round(now2, 3), canon(d2.acs))))
             if rem > 1:
                 rec(d2, now2, tr, rem - 1)
-    rec(Decode(), 0.0, [], depth)
+    rec(Decode(latlon=BWORLDS[BW[0]][1]), 0.0, [], depth)
     return viols, len(states), n
 
 
-def replay_batches(batches):
-    d, now = Decode(), 0.0
+def replay_batches(batches, world="eu"):
+    BW[0] = world
+    d, now = Decode(latlon=BWORLDS[world][1]), 0.0
     for b in batches:
         d, now, exc, info = batch_step(d, now, tuple(tuple(x) for x in b))
         s = batch_inv(d, exc, info)
@@ -741,11 +756,12 @@ def w_any(task):
             acc.samples.append({"exploration": "positions", "traj": name, "prefix": [list(p) for p in prefix], "depth": depth,
                                 "first_msg": pos_msg(TRAJ[name], 0.4, 0)})
     elif kind == "batch":
-        _, first, depth = task
+        _, first, depth = task[:3]
+        BW[0] = task[3] if len(task) > 3 else "eu"
         v, s, tr = run_batches(first, depth, acc)
         for sig, trace in v:
-            acc.bad(sig, {"kind": "batch", "batches": [[list(x) for x in b] for b in trace]})
-        acc.out.add(("batch", first))
+            acc.bad(sig + ("" if BW[0] == "eu" else ":" + BW[0]), {"kind": "batch", "world": BW[0], "batches": [[list(x) for x in b] for b in trace]})
+        acc.out.add(("batch", first, BW[0]))
     elif kind == "feat":
         _, seed_name, full = task
         v, s, tr = run_features(seed_name, acc, full)
@@ -801,6 +817,9 @@ def run(ctx):
             tasks.append(("list", (("A", "id", 0.3), a), 4 if ctx.thorough else 3, "all_commb", None))
     for b in BATCHES:
         tasks.append(("batch", b, 4 if ctx.thorough else 3))
+        for w_ in sorted(BWORLDS):
+            if w_ != "eu":
+                tasks.append(("batch", b, 4 if ctx.thorough else 3, w_))
     for sn in feature_seeds():
         tasks.append(("feat", sn, ctx.thorough))
     alpha = robust_alphabet(ctx.thorough)
@@ -827,7 +846,9 @@ def replay(case):
     if case["kind"] == "pos":
         s = replay_positions(case["traj"], [tuple(e) for e in case["events"]])
     elif case["kind"] == "batch":
-        s = replay_batches(case["batches"])
+        s = replay_batches(case["batches"], case.get("world", "eu"))
+        if s and case.get("world", "eu") != "eu":
+            s += ":" + case["world"]
     elif case["kind"] == "feat":
         s = replay_features(case["seed"], case["msgs"])
     elif case["kind"] == "list":
